@@ -1191,6 +1191,9 @@ func main() {
 		nt := r.N(36, 360)
 		vh.Parallel(nt, 12, func(i int) { tickSequence(r, i) })
 		r.Require("tick_sequence_trials", int64(nt*3/4))
+		nsr := r.N(12, 120)
+		vh.Parallel(nsr, 6, func(i int) { subjectRemovedTrial(r, i) })
+		r.Require("subject_removed_trials", int64(nsr*3/4))
 		ne := r.N(16, 160)
 		vh.Parallel(ne, 8, func(i int) { entryWithoutContent(r, i) })
 		r.Require("entry_without_content_trials", int64(ne*3/4))
